@@ -130,11 +130,12 @@ GROUPS += [
                         "indices, no other slot is read)"],
     },
     {
-        "id": "C07.dublin6", "property": ["C07", "C16"], "crate": "core", "stubbing": True, "cbmc_args": FS1100,
+        "id": "C07.dublin6", "property": ["C07", "C16", "C02"], "crate": "core", "stubbing": True, "cbmc_args": FS1100,
         "harnesses": ["c07_v6_dublin_payload_slice_in_range"], "jobs": 2, "timeout_s": 900, "mem_gb": 12,
         "functions": ["net::ipv6::Ipv6::{dispatch_udp_probe,dispatch_udp_probe_raw,make_udp_packet}"],
         "stubs": [SOCK_STUB, "trippy_packet::checksum::udp_ipv6_checksum -> arbitrary u16 (cut; C13 covers it)"],
-        "bounds": "every sequence offset 0..=970 (what INV allows: c07_next_probe_sym_v6), symbolic initial sequence",
+        "bounds": "every sequence offset 0..=970 (what INV allows: c07_next_probe_sym_v6), symbolic initial sequence; the datagram "
+                  "handed to the socket and its UDP length field are 8 + marker + offset for every such offset (wire contract of C02)",
     },
     # ------------------------------------------------------------------ C06 / C09 / C01 send step
     {
